@@ -139,7 +139,9 @@ def check(ctx, case):
         if req != ("ok", True):
             fails.append(Fail(kind="O", what="curves from %s and %s are not ==" % (n, ref_name), impl=req))
     # vertices: each control point once, in order
-    jx = jd if exact else ref["segments"]
+    # the constructors degree-reduce degree-elevated segments: the control points meant are those of the
+    # resulting segments (whose agreement with the exact reduction is part of the correspondence below)
+    jx = ref["segments"]
     want_v = [p for s in jx for p in s[:-1]]
     if not (len(want_v) == len(ref["vertices"]) and all(U.pt_same(a, b, exact) for a, b in zip(ref["vertices"], want_v))):
         fails.append(Fail(kind="O", what="vertices are not the control points once each in order", impl=ref["vertices"], expected=want_v))
@@ -162,7 +164,7 @@ def check(ctx, case):
     Jm = I.outcome(lambda: builds["ctrl"]().move((3, -2)))
     if Jm[0] == "ok":
         moved = I.jordan_data(Jm[1])
-        wantm = [[(p[0] + 3, p[1] - 2) for p in sg] for sg in (jx if exact else ref["segments"])]
+        wantm = [[(p[0] + 3, p[1] - 2) for p in sg] for sg in ref["segments"]]
         if not U.jordan_same(moved, wantm, exact, rotate=False):
             fails.append(Fail(kind="O", what="move() does not move every control point (vertex enumeration)", impl=str(moved)[:300]))
     # model
